@@ -554,6 +554,7 @@ class Prop(Check):
         "Repo.C17_history_wf_glob",
         "Repo.C17_load_base",
         "Repo.C17_history_terminates",
+        "Repo.C17_history_wf_fueled",
         "Repo.C17_history_next",
         "Repo.C17_targets_untouched",
         "Repo.C17_history_identity",
